@@ -68,12 +68,12 @@ TraceEnd ==
      IN IF /\ ~failed /\ e.panic = ""
            /\ \A c \in AllCons : c2[c].ok /\ EndOk(hist, c2[c])
            /\ \A c \in RtpCons : RtpEndOk(hist, rtp[c])
-           /\ StartsInTime(hist, c2["t1"]) /\ (e.hls.on => StartsInTime(hist, c2["hls"]))
+           /\ ("t1" \in DOMAIN e.out => StartsInTime(hist, c2["t1"])) /\ (e.hls.on => StartsInTime(hist, c2["hls"]))
            /\ RtpStartsInTime(hist, rtp["ra"])
            /\ \A c \in RtpGated : RtspStartsInTime(hist, rtp[c])
         THEN cons' = c2 /\ failed' = FALSE /\ UNCHANGED <<vc, ac, hist, rtp, rm, act>>
         ELSE Reject({c \in AllCons : ~c2[c].ok} \cup {"end:" \o c : c \in {x \in AllCons : c2[x].ok /\ ~EndOk(hist, c2[x])}}
-                    \cup {"start:" \o c : c \in {x \in {"t1", "hls"} : (x = "t1" \/ e.hls.on) /\ ~StartsInTime(hist, c2[x])}}
+                    \cup {"start:" \o c : c \in {x \in {"t1", "hls"} : (IF x = "t1" THEN "t1" \in DOMAIN e.out ELSE e.hls.on) /\ ~StartsInTime(hist, c2[x])}}
                     \cup (IF RtpStartsInTime(hist, rtp["ra"]) THEN {} ELSE {"start:ra"})
                     \cup {"start:" \o c : c \in {x \in RtpGated : ~RtspStartsInTime(hist, rtp[x])}}
                     \cup {"end:" \o c : c \in {x \in RtpCons : ~RtpEndOk(hist, rtp[x])}} \cup (IF e.panic = "" THEN {} ELSE {"panic"}))
